@@ -109,3 +109,42 @@ func callGoodClamped(src []byte, total int, h hdr) ([]uint16, error) {
 func callBadDiff(src []byte, h hdr) ([]uint16, error) {
 	return parseN(src, int(h.last)-int(h.first)+1)
 }
+
+// ---- R-LOOP ----
+
+type rec struct {
+	dupe bool
+	data []byte
+}
+
+// seeded: follows links stored in the data with no hop bound
+func followBad(rs []rec, g uint16) rec {
+	for {
+		if int(g) >= len(rs) {
+			return rec{}
+		}
+		out := rs[g]
+		if !out.dupe || len(out.data) < 2 {
+			return out
+		}
+		next := binary.BigEndian.Uint16(out.data)
+		if next == g {
+			return rec{}
+		}
+		g = next
+	}
+}
+
+func followGood(rs []rec, g uint16) rec {
+	for hops := 0; hops < 8; hops++ {
+		if int(g) >= len(rs) {
+			return rec{}
+		}
+		out := rs[g]
+		if !out.dupe || len(out.data) < 2 {
+			return out
+		}
+		g = binary.BigEndian.Uint16(out.data)
+	}
+	return rec{}
+}
